@@ -147,6 +147,9 @@ def test_suite():
         ns = {"actions": t["actions"], "tid": t["id"], "__module__": "thr"}
         if HOOKS:
             ns["layer"] = ThrLayer
+        if t.get("decoSkip"):
+            # skipped by decorator: on Python 3.12 unittest calls addSkip and stopTest for it, never startTest
+            ns["runTest"] = unittest.skip("skipped by decorator")(Base.runTest)
         cls = type("T%d" % t["id"], (Base,), ns)
         s.addTest(cls())
     return s
